@@ -50,7 +50,13 @@ func genQuantizer(t *rapid.T, label string, metric string, dim int, productOK bo
 	}
 	switch rapid.IntRange(0, 4).Draw(t, label+"-quant") {
 	case 0:
-		return &models.Quantizer{Type: models.QuantizerNone}
+		q := &models.Quantizer{Type: models.QuantizerNone}
+		if rapid.IntRange(0, 2).Draw(t, label+"-stray") == 0 {
+			// type "none" with a section left over from another type: the type decides, the section is ignored
+			th := float32(0.5)
+			q.Binary = &models.BinaryQuantizerParamaters{Threshold: &th, DistanceMetric: models.DistanceHamming}
+		}
+		return q
 	case 1:
 		th := rapid.SampledFrom([]float32{0, 0.5, -0.25, 1}).Draw(t, label+"-th")
 		return &models.Quantizer{Type: models.QuantizerBinary, Binary: &models.BinaryQuantizerParamaters{
